@@ -42,7 +42,18 @@ fn dump_hooks(sink: &mut Sink, first: bool) {
   let mut evs = hooks::take();
   evs.sort_by_key(|e| e.seq);
   let base = evs.first().map(|e| e.seq).unwrap_or(0);
+  // the trace spec carries the memo as a function, so its cost grows with the square of the number of fills: a stretch is
+  // validated up to its 30,000th fill / 150,000th event (more than twice what any stretch of the unchanged library needs);
+  // what a runaway history did before that point is still checked event by event
+  let mut fills = 0usize;
   for (n, e) in evs.iter().enumerate() {
+    if fills > 30_000 || n > 150_000 {
+      sink.put(Ev::new("ce").i("s", 0).i("seq", (e.seq - base) as i64).i("th", e.thread as i64).s("op", "cut").s("key", "").i("y", 0).i("m", 0).a("v", &[0, 0, 0, 0, 0]).done());
+      break;
+    }
+    if e.kind == "fill" {
+      fills += 1;
+    }
     sink.put(Ev::new("ce").b("s", first && n == 0).i("seq", (e.seq - base) as i64).i("th", e.thread as i64).s("op", e.kind).s("key", &e.key)
       .i("y", e.year as i64).i("m", e.month as i64).a("v", &val5(&e.value)).done());
   }
